@@ -221,7 +221,11 @@ func c12One(c *fw.Ctx, cs c12Case) {
 		}
 	case handshake.MustRefuse:
 		if accepted {
-			c.Violate("C12/cross-origin-accepted/"+cs.HostKind+"/"+cs.PatternKind, fmt.Sprintf("%s: the origin names host %q (by construction; userinfo kind %s, tail kind %s), which is neither the request host nor matched by a pattern, yet Accept upgraded the request (status written %d, %d Hijack call(s), err=%v)", desc, cs.Origin.HostPort(), cs.UserKind, cs.TailKind, w.status, w.hijacks, err), cs)
+			kind := cs.HostKind
+			if why == "port-only-difference" {
+				kind = "port-only-difference"
+			}
+			c.Violate("C12/cross-origin-accepted/"+kind+"/"+cs.PatternKind, fmt.Sprintf("%s: the origin names host %q (by construction; userinfo kind %s, tail kind %s), which is neither the request host nor matched by a pattern, yet Accept upgraded the request (status written %d, %d Hijack call(s), err=%v)", desc, cs.Origin.HostPort(), cs.UserKind, cs.TailKind, w.status, w.hijacks, err), cs)
 			return
 		}
 		if w.status != http.StatusForbidden {
